@@ -27,7 +27,7 @@ def check(ctx: Ctx) -> None:
 
 
 def _check(ctx: Ctx) -> None:
-    split_rules(ctx, {"KEY", "PURE", "Q1", "CUT", "RESTRIKE", "COUNT"}, explain=True)
+    split_rules(ctx, {"KEY", "PURE", "Q1", "CUT", "RESTRIKE", "COUNT", "PLACE"}, explain=True)
 
 
 def split_rules(ctx: Ctx, include: set, explain: bool = False) -> None:
@@ -43,7 +43,8 @@ def split_rules(ctx: Ctx, include: set, explain: bool = False) -> None:
         "remaining >= 0); CUT when a wait straddles the boundary the emitted part plus the carried part is the original wait "
         "and the emitted part is the remaining capacity (symbolic linear identity); RESTRIKE every note closed at a boundary "
         "is closed with the open note's channel and pitch and re-opened with its channel, pitch and velocity; PURE the source "
-        "object is not written (effect analysis); COUNT at most one piece is appended per capacity plus one remainder. "
+        "object is not written (effect analysis); COUNT at most one piece is appended per capacity plus one remainder; PLACE every "
+        "message taken from the work list is placed exactly once, in the current piece or on the deferred queue and nowhere else. "
         "Not decided: exact piece durations, piano-roll equality of the concatenation.")
     if explain:
         ctx.assumptions += ["capacities are positive integers", "the relative sequence is well-formed (note-offs follow their note-ons)"]
@@ -61,6 +62,64 @@ def split_rules(ctx: Ctx, include: set, explain: bool = False) -> None:
         _restrike(ctx, fi)
     if "COUNT" in include:
         _count(ctx, fi)
+    if "PLACE" in include:
+        _place(ctx, fi)
+
+
+def _place(ctx, fi):
+    """PLACE: every message taken from the work list goes, exactly once, either into the current piece or onto the deferred
+    queue (from where it is re-processed and registered in the next round) -- nowhere else, and never twice."""
+    p = ctx.p
+    qs = queue.find_queues(fi.node)
+    result = next((r.value.id for r in walk_local(fi.node) if isinstance(r, ast.Return) and isinstance(r.value, ast.Name)), None)
+    cur = None
+    for c in ast.walk(fi.node):
+        if isinstance(c, ast.Call) and call_method(c)[1] == "append" and isinstance(call_method(c)[0], ast.Name) and call_method(c)[0].id == result \
+                and c.args and isinstance(c.args[0], ast.Name):
+            cur = c.args[0].id
+    loop = next((n for n in ast.walk(fi.node) if isinstance(n, ast.While)), None)
+    popped = None
+    if loop is not None:
+        for s_ in loop.body:
+            if isinstance(s_, ast.Assign) and isinstance(s_.targets[0], ast.Name) and isinstance(s_.value, ast.Call) and call_method(s_.value)[1] == "pop":
+                popped = s_
+    if not qs or cur is None or loop is None or popped is None:
+        ctx.undetermined("PLACE", f"{FN}: placement of each message", "work-list loop / current piece / queue not recognised: not judged")
+        return
+    m = popped.targets[0].id
+    body = [s_ for s_ in loop.body if s_.lineno > popped.lineno]
+    allowed = {cur, qs[0]}
+    class _TC(TypeCase):
+        # both legitimate destinations count as one event, so that "exactly one of them" is an interval (1,1)
+        def event_for_call(self, c, st):
+            ev = super().event_for_call(c, st)
+            if ev is not None and ev[0] == "append" and ev[1] in allowed:
+                self.seen_dest.add(ev[1])
+                return ("append", "$place", ev[2])
+            return ev
+
+    for T in p.enum_order("MessageType"):
+        tc = _TC(p, fi, {m}, T)
+        tc.seen_dest = set()
+        exits = tc.run_body(body)
+        where = {}
+        for k, st in exits:
+            for e, v in st.counts.items():
+                if e[0] == "append" and e[2] in ("msg", "maybe-msg") and v[1] > 0:
+                    where.setdefault(e[1], []).append(v)
+        stray = sorted(set(where) - {"$place"})
+        total = events_matching(exits, lambda e: e[0] == "append" and e[2] in ("msg", "maybe-msg") and e[1] == "$place", kinds=("end", "continue", "break"))
+        inst = f"{FN}: {T}: the message is placed {total} time(s) in {sorted(tc.seen_dest)}"
+        ctx.check(not stray, "PLACE", inst + " -- only the current piece or the deferred queue", function=FN,
+                  construct=f"a {T} message taken from the work list is put somewhere other than the current piece or the deferred queue",
+                  message=f"appended to {stray}: it bypasses the re-processing of deferred events (a note would not be registered as open, "
+                          f"so it is neither closed nor re-struck at the next boundary)", file=fi.file, node=loop)
+        if T == "WAIT":
+            ok = total is not None and total[1] <= 1
+        else:
+            ok = total == (1, 1)
+        ctx.check(ok, "PLACE", inst + " -- exactly once", function=FN,
+                  construct=f"a {T} message is not placed exactly once", message=f"{total}", file=fi.file, node=loop)
 
 
 def _pure(ctx, fi):
